@@ -10,6 +10,7 @@
 package main
 
 import (
+	"context"
 	"fmt"
 	"math/rand"
 	"time"
@@ -21,7 +22,7 @@ import (
 )
 
 type hcopt struct {
-	Kind  string  `json:"opt"` // Initial Record Active Clock ResClock Rng
+	Kind  string  `json:"opt"` // Initial Record Active Clock ResClock ModeClock ActiveClock Rng
 	Modes []hmode `json:"modes,omitempty"`
 	Mode  *hmode  `json:"mode,omitempty"`
 	Via   bool    `json:"via_helper,omitempty"`
@@ -40,6 +41,10 @@ func (c hcopt) coq() string {
 		return vcoq.App("CClock", vcoq.Int(c.K))
 	case "ResClock":
 		return vcoq.App("CResClock", vcoq.Int(c.K))
+	case "ModeClock":
+		return vcoq.App("CModeClock", vcoq.Int(c.K))
+	case "ActiveClock":
+		return vcoq.App("CActiveClock", vcoq.Int(c.K))
 	case "Rng":
 		return "CRng"
 	}
@@ -100,6 +105,10 @@ func buildCfg(seed int64, opts []hcopt) (c *cfgSut, panicked bool) {
 			ros = append(ros, electricpb.WithClock(c.clocks[o.K]))
 		case "ResClock":
 			ros = append(ros, resource.WithClock(c.clocks[o.K]))
+		case "ModeClock":
+			ros = append(ros, electricpb.WithModeOption(resource.WithClock(c.clocks[o.K])))
+		case "ActiveClock":
+			ros = append(ros, electricpb.WithActiveModeOption(resource.WithClock(c.clocks[o.K])))
 		case "Rng":
 			ros = append(ros, electricpb.WithRNG(rand.New(rand.NewSource(seed))))
 		}
@@ -127,10 +136,7 @@ func (c *cfgSut) normalise(m *hmode, now int64, before, after int64) {
 	if v < 1e15 { // a fake reading or a configured start time
 		return
 	}
-	if r, ok := c.real[v]; ok {
-		if r != 4*now && v >= before && v <= after {
-			c.ambiguous = true
-		}
+	if r, ok := c.real[v]; ok { // a stamp first seen in an earlier step (nanosecond readings do not repeat)
 		m.Start = &r
 		return
 	}
@@ -150,6 +156,52 @@ func (c *cfgSut) normaliseObs(ob *hobs, now, before, after int64) {
 	}
 }
 
+// eventClocks: which clock the change time of a PullModes / PullActiveMode event shows.  After the
+// history: all fake clocks are set for base time T, a sentinel mode is added and made active, one
+// event of each stream (updates only, back-pressure) is read.  k = 1..3: fake clock k; 0: the real
+// clock (the change time lies between two readings of it taken around the call); -1: none of them.
+func (c *cfgSut) eventClocks(T int64) (mk, ak int64, ok bool) {
+	ctx, cancel := context.WithCancel(context.Background())
+	defer cancel()
+	mch := c.model.PullModes(ctx, resource.WithBackpressure(true), resource.WithUpdatesOnly(true))
+	ach := c.model.PullActiveMode(ctx, resource.WithBackpressure(true), resource.WithUpdatesOnly(true))
+	c.setClocks(T)
+	which := func(ct, before, after int64) int64 {
+		for k := int64(1); k <= 3; k++ {
+			if ct == 4*T+k {
+				return k
+			}
+		}
+		if ct >= before && ct <= after {
+			return 0
+		}
+		return -1
+	}
+	before := time.Now().Add(-5 * time.Second).UnixNano()
+	if err := c.model.AddMode(&traits.ElectricMode{Id: sentinel}); err != nil {
+		return 0, 0, false
+	}
+	after := time.Now().Add(5 * time.Second).UnixNano()
+	select {
+	case e := <-mch:
+		mk = which(e.ChangeTime.UnixNano(), before, after)
+	case <-time.After(10 * time.Second):
+		return 0, 0, false
+	}
+	before = time.Now().Add(-5 * time.Second).UnixNano()
+	if _, err := c.model.ChangeActiveMode(sentinel); err != nil {
+		return 0, 0, false
+	}
+	after = time.Now().Add(5 * time.Second).UnixNano()
+	select {
+	case e := <-ach:
+		ak = which(e.ChangeTime.UnixNano(), before, after)
+	case <-time.After(10 * time.Second):
+		return 0, 0, false
+	}
+	return mk, ak, true
+}
+
 // runCfg builds a model from opts, runs ops and emits one KCfg case.
 func (g *gen) runCfg(tag string, seed int64, opts []hcopt, ops []hop, nows []int64, cfgTags []string) {
 	type result struct {
@@ -158,6 +210,7 @@ func (g *gen) runCfg(tag string, seed int64, opts []hcopt, ops []hop, nows []int
 		steps     []hstep
 		stray     []string
 		ambiguous bool
+		evclk     *[2]int64
 	}
 	done := make(chan result, 1)
 	go func() {
@@ -169,9 +222,11 @@ func (g *gen) runCfg(tag string, seed int64, opts []hcopt, ops []hop, nows []int
 		res := result{o0: c.observe(0, nil)}
 		for i, o := range ops {
 			c.setClocks(nows[i])
-			before := time.Now().UnixNano()
+			// the window only tells a reading of the real clock from garbage; which step a real stamp
+			// belongs to is decided by when it is first seen.  Wide, so that a stepped wall clock is harmless.
+			before := time.Now().Add(-5 * time.Second).UnixNano()
 			code, ret, gid := c.call(o)
-			after := time.Now().UnixNano()
+			after := time.Now().Add(5 * time.Second).UnixNano()
 			o.Gen = gid
 			ob := c.observe(code, ret)
 			c.normaliseObs(&ob, nows[i], before, after)
@@ -179,6 +234,13 @@ func (g *gen) runCfg(tag string, seed int64, opts []hcopt, ops []hop, nows []int
 		}
 		res.stray = c.stray
 		res.ambiguous = c.ambiguous
+		last := int64(1000)
+		if len(nows) > 0 {
+			last = nows[len(nows)-1]
+		}
+		if mk, ak, ok := c.eventClocks(last + 100); ok {
+			res.evclk = &[2]int64{mk, ak}
+		}
 		done <- res
 	}()
 	var res result
@@ -215,10 +277,15 @@ func (g *gen) runCfg(tag string, seed int64, opts []hcopt, ops []hop, nows []int
 			nontrivial = true
 		}
 	}
-	coq := vcoq.App("KCfg", coqOpts(opts), vcoq.Bool(res.panicked), res.o0.coq(), vcoq.List(it))
+	ev := "None"
+	if res.evclk != nil {
+		ev = vcoq.Some("(" + vcoq.Z(res.evclk[0]) + ", " + vcoq.Z(res.evclk[1]) + ")")
+		tags = append(tags, fmt.Sprintf("cfg:event-clocks:%d/%d", res.evclk[0], res.evclk[1]))
+	}
+	coq := vcoq.App("KCfg", coqOpts(opts), vcoq.Bool(res.panicked), res.o0.coq(), vcoq.List(it), ev)
 	g.o.Add(vcoq.Case{
 		Coq:        coq,
-		JSON:       map[string]any{"kind": "config", "rng_seed": seed, "options": opts, "new_model_panicked": res.panicked, "observed_initially": res.o0, "steps": res.steps, "clock_reading": "clock k shows 4*now+k during a step; 0 = the real clock (stamps mapped to 4*now)"},
+		JSON:       map[string]any{"kind": "config", "rng_seed": seed, "options": opts, "new_model_panicked": res.panicked, "observed_initially": res.o0, "steps": res.steps, "event_clocks_modes_active": res.evclk, "clock_reading": "clock k shows 4*now+k during a step; 0 = the real clock (stamps mapped to 4*now)"},
 		Key:        coq,
 		NonTrivial: nontrivial || res.panicked || len(res.o0.Modes) > 0,
 		Tags:       tags,
@@ -318,6 +385,12 @@ func (g *gen) randomCfg() []hcopt {
 	}
 	if r.Chance(30) {
 		opts = append(opts, hcopt{Kind: "ResClock", K: r.Range(1, 3)})
+	}
+	if r.Chance(20) {
+		opts = append(opts, hcopt{Kind: "ModeClock", K: r.Range(1, 3)})
+	}
+	if r.Chance(20) {
+		opts = append(opts, hcopt{Kind: "ActiveClock", K: r.Range(1, 3)})
 	}
 	if r.Chance(80) {
 		opts = append(opts, hcopt{Kind: "Rng"})
